@@ -98,6 +98,12 @@ CLAIMED = {
    "Change sets containing AddSchema/DropSchema, ModifySchema outside in-place modes, or tables of a second schema must make PlanChanges return an error.",
    "References into other schemas through an enum type or a foreign key are tolerated by design (Builder.RefTable doc comment; pinned test TestPlanChanges 'Empty qualifier') and are not generated. Sequences of serial columns are not in the model.",
    "4/C16"),
+ "C15": ("exploration",
+   "exhaustive type-grid enumeration (format/parse fixpoint + HCL conversion round trip) + rapid PBT over schemas (round-trip oracle: empty diffs both ways, byte-identical re-marshal)",
+   "(a) every TypeSpec of the MySQL, PostgreSQL and SQLite type registries x a parameter grid (absent / zero / typical values per attribute, unsigned, enum/set value lists) is instantiated through the registry, formatted, parsed and formatted again (fixpoint) and sent through TypeRegistry.Convert/Type, the path MarshalHCL/EvalHCL use; the SQL form must come back unchanged. "
+   "(b) per-dialect feature-rich schemas plus an `alltypes` table over the formatted grid types (random null/default/comment) are marshalled with MarshalHCL, evaluated with EvalHCLBytes, diffed in both directions (DiffNormalized: must be empty) and marshalled again (bytes must be identical).",
+   "Schema graphs are built with the exported builder API from ParseType'd types (the form an inspector yields), not inspected from servers. MySQL table-level AUTO_INCREMENT start values are excluded (not exported by design); charset/collation are not generated (need a live server for defaults).",
+   "4/C15"),
 }
 PENDING_REASON = "check not built yet in this session (planned in DESIGN.md section 4; will be claimed once its quick check is green and sensitivity-tested)"
 
